@@ -5,6 +5,8 @@ Oracle clauses:
   pause_raises / play_raises   pause()/play() never raise
   step_while_paused            no step function/continuation is entered (or resumed after an await) while the
                                process reports paused
+  pause_ignored                an accepted pause that was not withdrawn takes effect at the next step boundary (no new step
+                               is entered before a play)
   play_not_playing             play() returns True and leaves the process un-paused
   paused_after_play            ... and cancels a pause that has not yet taken effect: the process does not
                                become paused after a play() until pause() is requested again
@@ -190,6 +192,21 @@ def _oracle(engine, result, reference, drive):
         elif tag == 'notify' and event[2] == 'paused' and last_control != 'pause':
             result.violate('paused_after_play', f'after:{last_control}',
                            f'process paused although the last request was {last_control!r}')
+
+    # a pause that was accepted and not withdrawn takes effect at the next step boundary: no NEW step is entered before a play
+    pending = None
+    for event in events:
+        tag = event[0]
+        if tag == 'acted' and event[2] == 'pause' and event[3] in ('True', 'future'):
+            pending = event
+        elif tag == 'selfact' and event[2] == 'pause' and event[4] in ('True', 'future'):
+            pending = event
+        elif tag == 'call' and event[2] == 'play':
+            pending = None
+        elif tag in ('step', 'wstep') and pending is not None:
+            result.violate('pause_ignored', tag, f'{event[2]} was entered although a pause had been requested (and accepted) and '
+                                                 f'no play() had been called since')
+            break
 
     # transparency
     got = common.user_trace(events)
